@@ -60,7 +60,7 @@ func (P *Program) discharge(obls []*Obligation, dir string, timeoutMs int, all b
 
 // solverSlots bounds the obligations being decided at once in this process (each races up to three solvers):
 // a solver starved of CPU times out on a query it decides in a second otherwise.
-var solverSlots = make(chan struct{}, 10)
+var solverSlots = make(chan struct{}, 16)
 
 // fastMode: single solver (z3-new), used by the frame inference where thousands of small queries are sent.
 var fastMode = false
